@@ -413,9 +413,13 @@ Definition hist_step_ok (s : osel) (buf : list byte) (op : val) (snap : val) : b
             | Some e => beq_list nb buf && val_eqb res (e_err e)
             | None => beq_list nb (ojoin s buf x) && is_vn res
             end
+          else if tag_is t "clonefrom" then beq_list nb x && is_vn res
           else true
+      | VC t [VI _] =>
+          if tag_is t "reserve" || tag_is t "shrinkto" then beq_list nb buf && is_vn res else true
       | VC t [] =>
           if tag_is t "clear" then beq_list nb []
+          else if tag_is t "shrinkfit" then beq_list nb buf && is_vn res
           else if tag_is t "pop" then
             match res with
             | VBool true => parent_rel s buf nb
